@@ -243,11 +243,10 @@ def run_layout(R, tonic):
     with R.guard('C01.R5'):
         pn = tonic.body(re.compile(r'codec::encode::EncodedBytes<T, U> as .*Stream>::poll_next$'))
         R.saw(pn)
-        sp = pn.calls(name='split_to')
+        sp = whole_buffer_takes(pn)
         R.floor('C01.R5', 'split_to sites', len(sp), 3)
-        for x, t in sp:
-            a = strip_refs(pn.origin(t['args'][1]))
-            R.check(is_call(a, name='len') and mentions_local_named(pn, a, 'buf'), 'C01.R5', 'yield-whole-buffer', site(pn, x), 'split_to(%s)' % show(a)[:60])
+        for x, t, whole in sp:
+            R.check(whole and mentions_local_named(pn, pn.origin(t['args'][0]), 'buf'), 'C01.R5', 'yield-whole-buffer', site(pn, x), 'the whole buffer is handed out (buf.split_to(buf.len()) / buf.split()): %r' % whole)
         ei = tonic.body('codec::encode::encode_item')
         g = mirlib.call_graph(tonic)
         for p in mirlib.reach(g, [ei.path]):
